@@ -92,6 +92,15 @@ func vpGenCfg(t *rapid.T, mode string) vpCfg {
 	// configuration terway accepts.
 	c.V4 = true
 	c.V6 = rapid.IntRange(0, 9).Draw(t, "stack") >= 5
+	if mode != "C07" && rapid.IntRange(0, 7).Draw(t, "v6only") == 0 {
+		// IPv6-only pool. The daemon's Config.Validate refuses ip_stack ipv6, so this is not a
+		// configuration a user can reach; the pool code supports it, though, and the C01/C06
+		// oracles hold there, so it is explored as extra coverage. Not in C07 mode: with IPv4
+		// disabled the real factory does not report IPv4 addresses, the periodic sync then
+		// marks the (unused) primary IPv4 address invalid, which the pool==cloud oracle of C07
+		// would have to special-case.
+		c.V4, c.V6 = false, true
+	}
 	maxCap := vt.Scale(6, 16)
 	c.Cap = rapid.IntRange(1, maxCap).Draw(t, "cap")
 	c.Batch = rapid.IntRange(1, 10).Draw(t, "batch")
